@@ -164,6 +164,19 @@ static void check_container_match(cif_tp *cif, const UChar *a, const UChar *b) {
               UChar **names = NULL; if (cif_loop_get_names(l, &names) == CIF_OK) { if (!names[0] || u_strcmp(names[0], ia) != 0) viol("container", "item created as %s reports name %s", hex(ia), names[0] ? hex(names[0]) : "-"); { int i; for (i = 0; names[i]; i++) free(names[i]); } free(names); }
               cif_loop_free(l);
           }
+          /* a table stored in the CIF and read back still matches its keys by canonical equivalence (and by nothing else) */
+          { cif_value_tp *tv = NULL, *back = NULL, *e = NULL; UChar ka[700], kb[700]; int wk; const UChar **keys = NULL;
+            norm_with(NFC, a, ka, 700); norm_with(NFC, b, kb, 700); wk = (u_strcmp(ka, kb) == 0);
+            if (cif_value_create(CIF_TABLE_KIND, &tv) == CIF_OK && cif_value_set_item_by_key(tv, a, NULL) == CIF_OK
+                    && cif_container_set_value(blk, ia, tv) == CIF_OK && cif_container_get_value(blk, ia, &back) == CIF_OK) {
+                evals++;
+                rc = cif_value_get_item_by_key(back, b, &e);
+                if (wk ? rc != CIF_OK : rc != CIF_NOSUCH_ITEM) viol("container", "table key %s stored in a CIF and read back, looked up as %s: rc %d, NFC forms %s", hex(a), hex(b), rc, wk ? "equal" : "differ");
+                rc = cif_value_get_item_by_key(back, a, &e);
+                if (rc != CIF_OK) viol("container", "table key %s stored in a CIF and read back is not found under its own spelling: rc %d", hex(a), rc);
+                if (cif_value_get_keys(back, &keys) == CIF_OK) { if (!keys[0] || keys[1] || u_strcmp(keys[0], a) != 0) viol("container", "table key %s stored in a CIF and read back enumerates as %s", hex(a), keys[0] ? hex(keys[0]) : "-"); free(keys); }
+            }
+            cif_value_free(tv); cif_value_free(back); }
           rc = cif_container_remove_item(blk, ib);
           if (want ? rc != CIF_OK : rc != CIF_NOSUCH_ITEM) viol("container", "item created as %s, remove_item(%s) = %d, normalised forms %s", hex(ia), hex(ib), rc, want ? "equal" : "differ");
       } }
